@@ -4,6 +4,7 @@ package main
 // built-in functions, loop cutting.
 
 import (
+	"sort"
 	"fmt"
 	"go/ast"
 	"go/types"
@@ -640,9 +641,47 @@ func (x *Exec) appendOp(st *State, fr *Frame, site ssa.Instruction, cc *ssa.Call
 
 func (x *Exec) loopSpec(fr *Frame, ord int) *LoopSpec {
 	if fr.contract == nil {
-		return nil
+		return x.orphanLoopSpec(fr, ord)
 	}
 	return fr.contract.Loops[ord]
+}
+
+// orphanLoopSpec: a loop met in a helper that has no contract of its own (auto-inlined: typically
+// a loop that a refactoring moved out of the function under contract). If the contract of the
+// function being verified has loop clauses for ordinals that function no longer has, they are
+// handed out, in ascending order, to such loops in the order they are first met. The clauses are
+// then checked against the helper's loop like any others (same-named locals are required).
+func (x *Exec) orphanLoopSpec(fr *Frame, ord int) *LoopSpec {
+	if x.cur == nil || x.curFn == nil || fr.fn == x.curFn || x.cs.Funcs[fnKey(fr.fn)] != nil || fr.fn.Parent() != nil {
+		return nil
+	}
+	key := fmt.Sprintf("%s#%d", fnKey(fr.fn), ord)
+	if x.orphanGiven == nil {
+		x.orphanGiven = map[string]int{}
+	}
+	if o, ok := x.orphanGiven[key]; ok {
+		return x.cur.Loops[o]
+	}
+	have := len(loopsOf(x.curFn).headers)
+	var orphans []int
+	for o := range x.cur.Loops {
+		if o >= have {
+			orphans = append(orphans, o)
+		}
+	}
+	sort.Ints(orphans)
+	used := map[int]bool{}
+	for _, o := range x.orphanGiven {
+		used[o] = true
+	}
+	for _, o := range orphans {
+		if !used[o] {
+			x.orphanGiven[key] = o
+			x.used["loop-clauses-moved:"+fnKey(fr.fn)] = true
+			return x.cur.Loops[o]
+		}
+	}
+	return nil
 }
 
 // loopHeader handles arrival at a loop header; it always takes over control.
@@ -718,7 +757,7 @@ func (x *Exec) loopHeader(st *State, fr *Frame, h *ssa.BasicBlock, pred *ssa.Bas
 				if it == "none" {
 					continue
 				}
-				for _, hk := range x.modifiesKeys(st, fr.contract.Pkg, it) {
+				for _, hk := range x.modifiesKeys(st, x.framePkg(fr), it) {
 					allowed[hk.key] = true
 				}
 			}
@@ -779,7 +818,7 @@ func (x *Exec) loopHeader(st *State, fr *Frame, h *ssa.BasicBlock, pred *ssa.Bas
 			if it == "none" {
 				continue
 			}
-			for _, hk := range x.modifiesKeys(st, fr.contract.Pkg, it) {
+			for _, hk := range x.modifiesKeys(st, x.framePkg(fr), it) {
 				declared[hk.key] = true
 				keys = append(keys, hk)
 			}
@@ -806,7 +845,7 @@ func (x *Exec) loopHeader(st *State, fr *Frame, h *ssa.BasicBlock, pred *ssa.Bas
 			keep := map[string]Tm{}
 			if spec != nil {
 				for _, pr := range spec.Preserves {
-					for _, pk := range x.modifiesKeys(st, fr.contract.Pkg, pr) {
+					for _, pk := range x.modifiesKeys(st, x.framePkg(fr), pr) {
 						keep[pk.key] = st.heapGet(pk.key, pk.sort)
 					}
 				}
@@ -821,7 +860,7 @@ func (x *Exec) loopHeader(st *State, fr *Frame, h *ssa.BasicBlock, pred *ssa.Bas
 	preserved := map[string]bool{}
 	if spec != nil {
 		for _, pr := range spec.Preserves {
-			for _, pk := range x.modifiesKeys(st, fr.contract.Pkg, pr) {
+			for _, pk := range x.modifiesKeys(st, x.framePkg(fr), pr) {
 				preserved[pk.key] = true
 			}
 		}
@@ -1117,4 +1156,16 @@ func mentionsTrace(e ast.Expr) bool {
 		return !found
 	})
 	return found
+}
+
+// framePkg: the package against which contract names are resolved in a frame (the verified
+// function's contract for helpers without one).
+func (x *Exec) framePkg(fr *Frame) string {
+	if fr.contract != nil {
+		return fr.contract.Pkg
+	}
+	if x.cur != nil {
+		return x.cur.Pkg
+	}
+	return ""
 }
